@@ -87,13 +87,24 @@ theorem ThState.code_inj {a b : ThState} (h : ((a.code : Nat) : Int) = (b.code :
 
 def tidVal (st : ThState) (tid : Int) : Value := if st.isActive then .int tid else .null
 
+def cpuVal : Option Nat → Value
+  | none => .null
+  | some c => .int c
+
+/-- the thread after a successful `thread_set_state` -/
+def Thread.withState (t : Thread) (st : ThState) : Thread :=
+  { t with state := st, chState := t.chState.setv (.int st.code), chTid := t.chTid.setv (tidVal st t.tid) }
+
+/-- the thread after a successful `thread_set_cpu` / `thread_unset_cpu` / `thread_migrate_cpu` -/
+def Thread.withCpu (t : Thread) (cpu : Option Nat) : Thread :=
+  { t with cpu := cpu, chCpu := t.chCpu.setv (cpuVal cpu) }
+
 theorem Thread.setState_eq {t : Thread} {w : Value}
     (hS : ChanOK t.chState (.int t.state.code) false) (hT : ChanOK t.chTid w true) (st : ThState) :
     t.setState st =
       if t.cpu.isNone then .error .noCpu
       else if t.state = st then .error .chanDup
-      else .ok { t with state := st, chState := t.chState.setv (.int st.code),
-                        chTid := t.chTid.setv (tidVal st t.tid) } := by
+      else .ok (t.withState st) := by
   unfold Thread.setState
   by_cases hc : t.cpu.isNone
   · simp [hc]; rfl
@@ -106,14 +117,10 @@ theorem Thread.setState_eq {t : Thread} {w : Value}
       simp [this, hs]
       rfl
 
-def cpuVal : Option Nat → Value
-  | none => .null
-  | some c => .int c
-
 theorem Thread.setCpu_eq {t : Thread} (hC : ChanOK t.chCpu (cpuVal t.cpu) false) (ci : Nat) :
     t.setCpu ci =
       if t.cpu.isSome then .error .state
-      else .ok { t with cpu := some ci, chCpu := t.chCpu.setv (.int ci) } := by
+      else .ok (t.withCpu (some ci)) := by
   unfold Thread.setCpu
   by_cases hc : t.cpu.isSome
   · simp [hc]; rfl
@@ -126,7 +133,7 @@ theorem Thread.setCpu_eq {t : Thread} (hC : ChanOK t.chCpu (cpuVal t.cpu) false)
 theorem Thread.unsetCpu_eq {t : Thread} (hC : ChanOK t.chCpu (cpuVal t.cpu) false) :
     t.unsetCpu =
       if t.cpu.isNone then .error .noCpu
-      else .ok { t with cpu := none, chCpu := t.chCpu.setv .null } := by
+      else .ok (t.withCpu none) := by
   unfold Thread.unsetCpu
   by_cases hc : t.cpu.isNone
   · simp [hc]; rfl
@@ -141,7 +148,7 @@ theorem Thread.migrateCpu_eq {t : Thread} (hC : ChanOK t.chCpu (cpuVal t.cpu) fa
     t.migrateCpu ci =
       if t.cpu.isNone then .error .noCpu
       else if t.cpu = some ci then .error .chanDup
-      else .ok { t with cpu := some ci, chCpu := t.chCpu.setv (.int ci) } := by
+      else .ok (t.withCpu (some ci)) := by
   unfold Thread.migrateCpu
   by_cases hc : t.cpu.isNone
   · simp [hc]; rfl
